@@ -20,6 +20,7 @@ pub fn replay_file(path: &str) -> i32 {
         Some("engine_history") => replay_engine_history(d),
         Some("opseq") => replay_opseq(d),
         Some("legal_calls") => replay_legal_calls(d),
+        Some("schedule") => crate::props::c14::replay_schedule(d),
         _ => {
             println!("detail: {}", serde_json::to_string_pretty(d).unwrap());
             0
